@@ -778,7 +778,9 @@ def build_pair(T, W, R, mod, name, wd, computed_ids):
             shown.append("R" if f.get("isrec") else "A")
         else:
             shown.append("S")
-    hidden = [not f.get("getter", True) for f in rfields]
+    # hidden from the correspondence rendering: fields without a getter, and scalars wider than 8 bytes (the
+    # traversal renders them as `Unknown`)
+    hidden = [(not f.get("getter", True)) or (f["kind"] == "scalar" and f["size"] > 8) for f in rfields]
     return {"kind": kind, "assumes": assumes, "assume_text": assume_text, "names": names + extra, "w": wl, "r": rl, "show": shown, "hidden": hidden,
             "computed": [d["computed"] for d in wst if d.get("computed")],
             "nstmts": len(wd["stmts"]), "reader": rkey}
